@@ -5,6 +5,8 @@ import (
 	"regexp"
 	"strings"
 
+	distiller "github.com/markusmobius/go-domdistiller"
+
 	"golang.org/x/net/html"
 	"verif/harness/eng"
 	"verif/harness/ora"
@@ -26,6 +28,8 @@ var c04Carriers = []carrier{
 	{"script", "A", func(s string) string { return "<script>var " + s + " = 1;</script>" }},
 	{"style", "A", func(s string) string { return "<style>." + s + "{color:red}</style>" }},
 	{"comment", "A", func(s string) string { return "<!-- " + s + " -->" }},
+	{"style-displayed", "A", func(s string) string { return "<style style=\"display:block\">." + s + "{color:red}</style>" }},
+	{"script-displayed", "A", func(s string) string { return "<script style=\"display:inline\">var " + s + " = 1;</script>" }},
 	{"hidden", "A", func(s string) string { return "<span hidden>" + s + "</span>" }},
 	{"dn", "A", spanStyle("display:none")},
 	{"dn-sp", "A", spanStyle("display: none;")},
@@ -61,6 +65,7 @@ var c04Carriers = []carrier{
 	{"select", "B", func(s string) string { return "<select><option>" + s + "</option></select>" }},
 	{"textarea", "B", func(s string) string { return "<textarea>" + s + "</textarea>" }},
 	{"noscript", "B", func(s string) string { return "<noscript>" + s + "</noscript>" }},
+	{"noscript-block", "B", func(s string) string { return "<noscript><div><p>" + s + "</p></div></noscript>" }},
 	{"svg", "B", func(s string) string { return "<svg width=\"10\" height=\"10\"><text>" + s + "</text></svg>" }},
 	{"object", "B", func(s string) string { return "<object data=\"http://example.com/x.bin\">" + s + "</object>" }},
 	{"applet", "B", func(s string) string { return "<applet code=\"x\">" + s + "</applet>" }},
@@ -137,6 +142,9 @@ func c04Enumerate(tier string, emit func(*eng.Case)) {
 				d = append(d, c04Carriers[pl[0]].name+"@"+c04Slots[pl[1]])
 			}
 			emit(&eng.Case{Kind: "leak", HTML: c04Doc(cur), P: map[string]string{"doc": strings.Join(d, " + ")}})
+			if len(cur) == 1 {
+				emit(&eng.Case{Kind: "leak", HTML: c04Doc(cur), P: map[string]string{"entry": "reader", "doc": strings.Join(d, " + ") + " via ApplyForReader"}})
+			}
 		}
 		if len(cur) == maxK {
 			return
@@ -235,7 +243,24 @@ func classifySecret(n *html.Node) (class, holder string, exc *html.Node) {
 
 func c04Check(c *eng.Case) *eng.Outcome {
 	o := &eng.Outcome{}
-	a := analyse(c, o)
+	var a *An
+	if c.Get("entry") == "reader" {
+		// the bytes go through ApplyForReader; the reference reading of the page is still ours
+		var res *distiller.Result
+		var err error
+		pi := eng.Protect(func() { res, err = distiller.ApplyForReader(strings.NewReader(c.HTML), nil) })
+		if pi != nil {
+			o.Skipped = pi.Sig()
+			return o
+		}
+		if err != nil || res == nil || res.Node == nil {
+			o.Skipped = "error"
+			return o
+		}
+		a = analyseRes(ora.Parse(c.HTML), res)
+	} else {
+		a = analyse(c, o)
+	}
 	if a == nil {
 		return o
 	}
@@ -372,7 +397,7 @@ func init() {
 		ID:        "C04",
 		DesignRef: "§5 C04",
 		Rule: "fixed host skeleton (article with paragraph, list, layout table, data table, three figures, twitter embed) with 14 slots {top, between paragraphs, inside paragraph, li, layout cell, data cell, caption, caption with link, directly in figure, twitter embed, head, a caption holding only the carriers, inside picture, inside video}; " +
-			"every multiset of <= 2 (quick) / <= 3 (thorough) (carrier, slot) placements over 40 carriers (24 hidden/non-rendered incl. hidden elements that also carry a style shared with a visible control, 10 non-reading, 4 visible controls, 2 observe-only CSS spellings), each holding a unique secret token. " +
+			"every multiset of <= 2 (quick) / <= 3 (thorough) (carrier, slot) placements over 43 carriers (26 hidden/non-rendered incl. hidden elements that also carry a style shared with a visible control, 10 non-reading, 4 visible controls, 2 observe-only CSS spellings), each holding a unique secret token; every single placement is also distilled from bytes through ApplyForReader. " +
 			"Oracle: secrets whose holder (judged on the parsed tree) is script/style/head/comment/hidden never occur in Text nor in result.Node outside embed placeholders; secrets in form controls/noscript/svg/object/applet/unrecognised iframe never occur unless nested in a retained data table or figure. Non-trivial = >= 1 secret and >= 100 words retained.",
 		Enumerate: c04Enumerate,
 		Check:     c04Check,
